@@ -42,17 +42,24 @@ def build(t, part, chooser=None, handler_checkpoint=False):
             raise exceptions.ConnectionRefusedError('no', x, 'two')
         return None
 
-    if asyncio_:
+    if asyncio_ and part.get('auth_required'):
+        async def on_connect(sid, environ, auth):          # the auth argument is not optional: without a payload the
+            return on_connect_body(sid, environ, auth, 3)    # server's first call fails and it retries with auth=None
+    elif asyncio_:
         async def on_connect(sid, environ, auth=None):
             return on_connect_body(sid, environ, auth, 3)
-
+    if asyncio_:
         async def on_disconnect(sid, reason):
             if handler_checkpoint:
                 await miniloop.checkpoint('disconnect-handler')
             log['disconnect'].append((sid, reason))
     else:
-        def on_connect(sid, environ, auth=None):
-            return on_connect_body(sid, environ, auth, 3)
+        if part.get('auth_required'):
+            def on_connect(sid, environ, auth):
+                return on_connect_body(sid, environ, auth, 3)
+        else:
+            def on_connect(sid, environ, auth=None):
+                return on_connect_body(sid, environ, auth, 3)
 
         def on_disconnect(sid, reason):
             log['disconnect'].append((sid, reason))
@@ -368,6 +375,9 @@ def hist_parts(tier):
                     continue
                 for k0 in range(4):
                     out.append({'async': a, 'always_connect': ac, 'nsconf': nsconf, 'classns': classns, 'n': n, 'slice': [4, k0]})
+            for k0 in range(4):
+                out.append({'async': a, 'always_connect': ac, 'nsconf': 'default', 'classns': False, 'auth_required': True,
+                            'n': n - 1, 'slice': [4, k0]})
             if a:
                 for k0 in range(4):
                     out.append({'async': a, 'always_connect': ac, 'nsconf': 'list', 'classns': True, 'plain_methods': True, 'n': n,
